@@ -2506,8 +2506,8 @@ class Parameters:
         cls = self_.cls
         type.__setattr__(cls, param_name, param_obj)
         ParameterizedMetaclass._initialize_parameter(cls, param_name, param_obj)
-        # delete cached params()
-        cls._param__private.params.clear()
+        # delete cached params() of the class and of its subclasses
+        cls._clear_parameters_cache()
 
     # PARAM3_DEPRECATION
     @_deprecated(extra_msg="Use instead `.param.add_parameter`", warning_cat=_ParamFutureWarning)
@@ -4524,13 +4524,33 @@ class ParameterizedMetaclass(type):
                 parameter = copy.copy(parameter)
                 parameter.owner = mcs
                 type.__setattr__(mcs,attribute_name,parameter)
-            mcs.__dict__[attribute_name].__set__(None,value)
+                # the class and its subclasses are now governed by the copy
+                mcs._clear_parameters_cache()
+                try:
+                    parameter.__set__(None,value)
+                except Exception:
+                    # a rejected value must not leave the copy behind
+                    type.__delattr__(mcs,attribute_name)
+                    mcs._clear_parameters_cache()
+                    raise
+            else:
+                mcs.__dict__[attribute_name].__set__(None,value)
 
         else:
             type.__setattr__(mcs,attribute_name,value)
 
             if isinstance(value,Parameter):
                 mcs.__param_inheritance(attribute_name,value)
+                mcs._clear_parameters_cache()
+
+    def _clear_parameters_cache(mcs):
+        """
+        Drop the cached name -> Parameter mapping of this class and of
+        all its subclasses, which look their Parameters up through it.
+        """
+        mcs._param__private.params.clear()
+        for subclass in type.__subclasses__(mcs):
+            subclass._clear_parameters_cache()
 
     def __param_inheritance(mcs, param_name, param):
         """
